@@ -470,6 +470,9 @@ class C12(Property):
         "Flatland.C12.Proofs.posts_flat_pair_textarea",
         "Flatland.C12.Proofs.checked_iff",
         "Flatland.C12.Proofs.checked_iff_array",
+        "Flatland.C12.Proofs.checked_iff_boolean",
+        "Flatland.C12.Proofs.selected_iff",
+        "Flatland.C12.Proofs.transform_frame",
         "Flatland.C12.Proofs.label_raw_eq_control_raw",
         "Flatland.C12.Proofs.label_targets",
         "Flatland.C12.Proofs.submitted_orderPairs",
@@ -479,9 +482,14 @@ class C12(Property):
     ]
     generated_obligations = []
     level_text = "proof"
-    level_note = ("partial: password/file/image inputs are excluded (KF-C12-a, refuted for the full statement by C12_full_fails); "
-                  "option/select, and the form round trip through from_flat/flatten (C01), rest on "
-                  "correspondence and the oracle")
+    level_note = ("partial.  PROVED (model of the transforms + browser rule): text-like input / button / textarea carry (flat name, u) "
+                  "[textarea: minus one leading LF, KF-C12-f]; checkbox/radio with a literal (scalar, Boolean, Array-of-String binds), "
+                  "Boolean checkbox without literal, <option value=lit> selected iff match (any bind kind) and what it posts inside a "
+                  "named select; label for = control id for <input> controls.  EXCLUDED BY FINDINGS: password/file/image "
+                  "(KF-C12-a, refuted by C12_full_fails), options without value= (KF-C12-b/e), mixed-case type (KF-C12-c), "
+                  "JoinedString binds (KF-C12-d).  ORACLE/CORRESPONDENCE ONLY: that the <select> itself carries the flat name, "
+                  "label for = id for textarea/button controls, MultiValue binds, the whole-form round trip through "
+                  "from_flat/flatten (C01's functions)")
     technique = ("symbolic evaluation of the transform pipeline under Enabled/Disabled contexts + frame lemmas; browser "
                  "successful-control rule as a function; order-independence of the rule under attribute sorting")
     trusted_base = [
@@ -491,7 +499,12 @@ class C12(Property):
     assumptions = [
         "one whole-Array bind per case at most (its repr-style display text is an input of the model)",
         "Array members are String elements; List members share one member schema",
-        "browsers' newline normalisation in textarea/attribute values is not modelled (html.parser keeps text verbatim)",
+        "the browser is html.parser + the successful-control rule + two HTML-parser/WHATWG details (one LF dropped after "
+        "<textarea>; option text stripped and collapsed on ASCII whitespace).  NOT modelled: CR/CRLF -> LF normalisation of the "
+        "input stream, newline stripping in text inputs, CRLF normalisation on submission, NUL -> U+FFFD: element texts "
+        "containing CR/LF/NUL in text-like inputs are 'posted unchanged' relative to that",
+        "leaf kinds: String, Integer, Boolean, Array of String, MultiValue of String, JoinedString (DateYYYYMMDD, Enum, SparseDict "
+        "of C01's trees are not generated here: their leaves are scalars of the kinds above as far as the transforms can tell)",
     ]
     rule = ("element trees (Dict/List/Array/String/Integer/Boolean, depth <= 3, names containing the separator, quotes, spaces, "
             "non-ASCII, digit-only names, anonymous members), every bindable leaf; control kinds: text-like inputs, textarea, "
